@@ -14,13 +14,27 @@ impl<R: Rng> Rng for &mut R {
     }
 }
 
+spec fn swapped<A>(s: Seq<A>, i: int, j: int) -> Seq<A> { s.update(i, s[j]).update(j, s[i]) }
+
+spec fn apply_swaps<A>(s: Seq<A>, sw: Seq<(int, int)>) -> Seq<A>
+    decreases sw.len()
+{
+    if sw.len() == 0 { s } else { let t = apply_swaps(s, sw.drop_last()); swapped(t, sw.last().0, sw.last().1) }
+}
+
+spec fn valid_swaps(n: int, sw: Seq<(int, int)>) -> bool {
+    forall|k: int| 0 <= k < sw.len() ==> 0 <= (#[trigger] sw[k]).0 < n && 0 <= sw[k].1 < n
+}
+
+
 trait SliceRandom {
     type Item;
     spec fn elems(&self) -> Seq<Self::Item>;
     // rand::seq::SliceRandom::shuffle: some permutation, any permutation
     fn shuffle<R: Rng>(&mut self, rng: &mut R)
-        ensures final(self).elems().to_multiset() == old(self).elems().to_multiset(),
-                final(self).elems().len() == old(self).elems().len();
+        // Fisher-Yates: the result is the input after some sequence of in-range swaps (any permutation)
+        ensures exists|sw: Seq<(int, int)>| valid_swaps(old(self).elems().len() as int, sw)
+                    && final(self).elems() == apply_swaps(old(self).elems(), sw);
 }
 
 impl<T> SliceRandom for Vec<T> {
